@@ -19,31 +19,35 @@ import (
 
 // rsCase is the serialisable form of a validated-run case.
 type rsCase struct {
-	Rules      []interface{}     `json:"rules"`
-	Text       string            `json:"text"`
-	Texts      []string          `json:"resources,omitempty"`
-	SoloTexts  map[string]string `json:"solo_texts"`
-	Init       *facts.State      `json:"init"`
-	MaxCycle   uint64            `json:"max_cycle"`
-	ErrOnFail  bool              `json:"err_on_fail"`
-	ViaGRB     bool              `json:"via_grb"`
-	Listeners  int               `json:"listeners"`
-	FailAt     int               `json:"probe_fail_at,omitempty"`
-	FailMode   int               `json:"probe_fail_mode,omitempty"`
-	Order      []string          `json:"observed_first_cycle_order,omitempty"`
-	PriorInit  *facts.State      `json:"earlier_call_facts,omitempty"`
-	PriorMax   uint64            `json:"earlier_call_max_cycle,omitempty"`
-	PriorSame  bool              `json:"earlier_call_on_same_data_context,omitempty"`
-	PriorOther bool              `json:"earlier_call_on_another_instance,omitempty"`
-	Rejected   []string          `json:"rejected_resources_offered_in_between,omitempty"`
-	Batch      bool              `json:"built_through_the_batch_entry_point,omitempty"`
-	NestedAt   int               `json:"nested_run_on_the_same_engine_at_probe,omitempty"`
+	Rules       []interface{}     `json:"rules"`
+	Text        string            `json:"text"`
+	Texts       []string          `json:"resources,omitempty"`
+	SoloTexts   map[string]string `json:"solo_texts"`
+	Init        *facts.State      `json:"init"`
+	MaxCycle    uint64            `json:"max_cycle"`
+	ErrOnFail   bool              `json:"err_on_fail"`
+	ViaGRB      bool              `json:"via_grb"`
+	Listeners   int               `json:"listeners"`
+	FailAt      int               `json:"probe_fail_at,omitempty"`
+	FailMode    int               `json:"probe_fail_mode,omitempty"`
+	Order       []string          `json:"observed_first_cycle_order,omitempty"`
+	PriorInit   *facts.State      `json:"earlier_call_facts,omitempty"`
+	PriorMax    uint64            `json:"earlier_call_max_cycle,omitempty"`
+	PriorSame   bool              `json:"earlier_call_on_same_data_context,omitempty"`
+	PriorOther  bool              `json:"earlier_call_on_another_instance,omitempty"`
+	Rejected    []string          `json:"rejected_resources_offered_in_between,omitempty"`
+	Batch       bool              `json:"built_through_the_batch_entry_point,omitempty"`
+	NestedAt    int               `json:"nested_run_on_the_same_engine_at_probe,omitempty"`
+	RemovedText string            `json:"rule_built_and_removed_again,omitempty"`
+	RemovedName string            `json:"removed_rule_name,omitempty"`
+	RemovedVia  string            `json:"removed_through,omitempty"`
+	RefTruth    map[string]bool   `json:"condition_decided_by_reference,omitempty"`
 }
 
 func toRSCase(c *val.Case) *rsCase {
 	return &rsCase{Rules: gast.EncodeRules(c.Rules), Text: c.Text, Texts: c.Texts, SoloTexts: c.SoloTexts, Init: c.Init, MaxCycle: c.MaxCycle,
 		ErrOnFail: c.ErrOnFail, ViaGRB: c.ViaGRB, Listeners: c.Listeners, FailAt: c.ProbeFailAt, FailMode: int(c.ProbeMode),
-		PriorInit: c.PriorInit, PriorMax: c.PriorMaxCycle, PriorSame: c.PriorSameDC, PriorOther: c.PriorOtherInstance, Rejected: c.Rejected, Batch: c.Batch, NestedAt: c.NestedAt}
+		PriorInit: c.PriorInit, PriorMax: c.PriorMaxCycle, PriorSame: c.PriorSameDC, PriorOther: c.PriorOtherInstance, Rejected: c.Rejected, Batch: c.Batch, NestedAt: c.NestedAt, RemovedText: c.RemovedText, RemovedName: c.RemovedName, RemovedVia: c.RemovedVia, RefTruth: c.RefTruth}
 }
 
 func fromRSCase(r *rsCase) (*val.Case, error) {
@@ -53,7 +57,7 @@ func fromRSCase(r *rsCase) (*val.Case, error) {
 	}
 	return &val.Case{Rules: rules, Text: r.Text, Texts: r.Texts, SoloTexts: r.SoloTexts, Init: r.Init, MaxCycle: r.MaxCycle, ErrOnFail: r.ErrOnFail,
 		ViaGRB: r.ViaGRB, Listeners: r.Listeners, ProbeFailAt: r.FailAt, ProbeMode: facts.FailMode(r.FailMode),
-		PriorInit: r.PriorInit, PriorMaxCycle: r.PriorMax, PriorSameDC: r.PriorSame, PriorOtherInstance: r.PriorOther, Rejected: r.Rejected, Batch: r.Batch, NestedAt: r.NestedAt}, nil
+		PriorInit: r.PriorInit, PriorMaxCycle: r.PriorMax, PriorSameDC: r.PriorSame, PriorOtherInstance: r.PriorOther, Rejected: r.Rejected, Batch: r.Batch, NestedAt: r.NestedAt, RemovedText: r.RemovedText, RemovedName: r.RemovedName, RemovedVia: r.RemovedVia, RefTruth: r.RefTruth}, nil
 }
 
 // rsGenCfg bundles the knobs of a validated-run property.
@@ -68,6 +72,9 @@ type rsGenCfg struct {
 	// Rejected: a fifth of the knowledge bases are offered, after their first resource, a resource that the
 	// builder has to reject and that is made of the rule set's own material
 	Rejected bool
+	// RemovedSibling: a fifth of the knowledge bases get one more rule that shares conditions and actions with
+	// a rule of the set and is removed again (through the library or from the instance) before anything runs
+	RemovedSibling bool
 }
 
 func defaultMaxCycle(rt *rapid.T) uint64 {
@@ -150,6 +157,17 @@ func genRSCase(rt *rapid.T, cfg rsGenCfg) (*val.Case, *gen.RuleSet) {
 		}
 		c.Rejected = []string{rejectedResource(rt, first)}
 		rs.Feat["rejected_resource_offered_in_between"]++
+	}
+	if cfg.RemovedSibling && rapid.IntRange(0, 4).Draw(rt, "removed_sibling") == 0 {
+		src := rs.Rules[rapid.IntRange(0, len(rs.Rules)-1).Draw(rt, "removed_source")]
+		var when gast.Expr = gast.Clone(src.When)
+		if rapid.Bool().Draw(rt, "removed_extended") {
+			when = &gast.Bin{Op: gast.OpAnd, L: &gast.Paren{X: when}, R: &gast.Bin{Op: gast.OpLT, L: gast.P("F", "H"), R: gast.I(100)}}
+		}
+		sib := &gast.Rule{Name: "ZRemoved", When: when, Then: cloneStmts(src.Then), Salience: src.Salience}
+		c.RemovedText, c.RemovedName = gast.RuleString(sib)+"\n", sib.Name
+		c.RemovedVia = rapid.SampledFrom([]string{"library", "instance"}).Draw(rt, "removed_via")
+		rs.Feat["rule_built_and_removed_again:"+c.RemovedVia]++
 	}
 	if (len(c.Texts) > 0 || len(c.Rejected) > 0) && rapid.Bool().Draw(rt, "batch_entry_point") {
 		c.Batch = true
@@ -254,6 +272,30 @@ func forgetNamesSelector(rules []*gast.Rule) bool {
 		}
 	}
 	return found
+}
+
+// maybeBareCondition makes, in an eighth of the cases, one rule's whole condition a bare boolean value of an
+// unusual Go shape: a named boolean type (field or method result), a boolean behind a pointer or inside an
+// interface value, a top-level variable, a JSON member.
+func maybeBareCondition(rt *rapid.T, c *val.Case, rs *gen.RuleSet) {
+	if rapid.IntRange(0, 7).Draw(rt, "bare_condition") != 0 {
+		return
+	}
+	r := c.Rules[rapid.IntRange(0, len(c.Rules)-1).Draw(rt, "bare_rule")]
+	conds := []gast.Expr{gast.P("F", "NB"), &gast.Call{Recv: gast.P("F"), Name: "IsNB"}, gast.P("F", "PTrue"), gast.P("F", "ATrue"), gast.P("F", "B"), gast.P("F", "AFalse")}
+	k := rapid.IntRange(0, len(conds)-1).Draw(rt, "bare_kind")
+	r.When = conds[k]
+	if k == 0 || k == 1 || k == 4 {
+		// a boolean field, a field of a named boolean type, a method returning one: the value of the condition is
+		// the value of the field, and the reference decides it (the fresh engine shares the engine's final
+		// "is it a boolean" test, which is part of what is checked here)
+		if c.RefTruth == nil {
+			c.RefTruth = map[string]bool{}
+		}
+		c.RefTruth[r.Name] = true
+	}
+	c14Rerender(c)
+	rs.Feat["whole_condition_is_a_bare_boolean_of_unusual_shape"]++
 }
 
 // maybeNested lets a third of the cases with probes run another knowledge base on the same engine value from
